@@ -1,4 +1,5 @@
 import Neutrino.Props.C05
+import Neutrino.Props.C05Trans
 open Neutrino.GetCFilter
 #print axioms C05_sound
 #print axioms C05_sound_counterexample
@@ -17,3 +18,8 @@ open Neutrino.GetCFilter
 #print axioms C05_no_query_above_tip
 #print axioms C05_prepared_target_committed
 #print axioms C05_source_facts
+#print axioms Neutrino.GetCFilter.C05_trans_prepareCFiltersQuery
+#print axioms Neutrino.GetCFilter.C05_trans_range
+#print axioms Neutrino.GetCFilter.C05_trans_no_query_above_tip
+#print axioms Neutrino.GetCFilter.C05_trans_lookup_error
+#print axioms Neutrino.GetCFilter.C05_trans_headerIndex
